@@ -28,6 +28,8 @@ pub const WPROBES: &[&str] = &[
     "vec_starts_within_45_of_boundary",
     "tuple_starts_within_45_of_boundary",
     "macro_starts_within_45_of_boundary",
+    "nested_container_starts_within_45_of_boundary",
+    "nested_container_written",
     "piece_ends_exactly_at_boundary",
     "write_would_overflow_buffer",
     "sink_called_during_write_op",
@@ -104,7 +106,22 @@ fn long_int(rng: &mut Rng) -> Val {
     Val::Int(IntVal { ty, neg, mag })
 }
 
+fn gen_nested(rng: &mut Rng) -> WOp {
+    let k = rng.usize_below(4);
+    let int = |rng: &mut Rng, t: IntTy| gen_val(rng, ElemTy::Int(t), true);
+    let groups: Vec<Vec<Val>> = match k {
+        0 => (0..rng.urange(0, 4)).map(|_| (0..rng.urange(0, 4)).map(|_| int(rng, IntTy::I64)).collect()).collect(),
+        1 => (0..rng.urange(0, 4)).map(|_| vec![int(rng, IntTy::I32), gen_val(rng, ElemTy::Str, false)]).collect(),
+        2 => vec![(0..rng.urange(0, 5)).map(|_| int(rng, IntTy::U8)).collect(), vec![int(rng, IntTy::I32)]],
+        _ => (0..rng.urange(0, 3)).map(|_| (0..rng.urange(0, 3)).map(|_| gen_val(rng, ElemTy::Str, false)).collect()).collect(),
+    };
+    WOp::Nested(k, groups)
+}
+
 fn gen_value_op(rng: &mut Rng, ws_free: bool, allow_macro: bool) -> WOp {
+    if !ws_free && rng.chance(1, 16) {
+        return gen_nested(rng);
+    }
     match rng.below(if allow_macro { 14 } else { 12 }) {
         0..=3 => {
             let ty = *rng.pick(&ALL_INT);
@@ -401,6 +418,7 @@ impl Acc {
                     "vec" => p.hit(wprobe("vec_starts_within_45_of_boundary")),
                     "tuple" => p.hit(wprobe("tuple_starts_within_45_of_boundary")),
                     "macro" => p.hit(wprobe("macro_starts_within_45_of_boundary")),
+                    "nested" => p.hit(wprobe("nested_container_starts_within_45_of_boundary")),
                     _ => {}
                 }
             }
@@ -426,6 +444,9 @@ impl Acc {
             }
             if *kind == "macro" {
                 p.hit(wprobe("macro_path_used"));
+            }
+            if *kind == "nested" {
+                p.hit(wprobe("nested_container_written"));
             }
             if let WOp::Int(Val::Int(iv)) = &rec.script[i] {
                 if (iv.neg && iv.mag == iv.ty.min_mag()) || (!iv.neg && iv.mag == iv.ty.max_mag()) {
